@@ -23,7 +23,7 @@ PROOFS = [
     P('rt_tp', ['option_enum.cpp (generated): to_string(token_pos_e)', 'convert_string(const char*, token_pos_e&)'],
       mutants=[('lead_break_lost', r'else if \(strcasecmp\(in, "lead_break"\) == 0\)', 'else if (strcasecmp(in, "lead-break") == 0)', 'postcondition')]),
     P('reject', ['option_enum.cpp (generated): convert_string refuses unknown words'],
-      mutants=[('assign_before_check', r'\{\n      return\(false\);\n   \}\n\}', '{\n      out = IARF_IGNORE;\n      return(false);\n   }\n}', 'postcondition')]),
+      mutants=[('assign_before_check', r'(?s)(convert_string\(const char \*in, iarf_e &out\).*?)\{\n      return\(false\);\n   \}\n\}', r'\1{\n      out = IARF_IGNORE;\n      return(false);\n   }\n}', 'postcondition')]),
 ]
 EXPLANATION = ('Kernel of C15 (enumerated values): option_enum.cpp is regenerated on every run from /repo (scripts/make_option_enum.py + src/option_enum.cpp.in + src/option.h, as '
                'the build does) and its real to_string()/convert_string() are proved inverse for every value of bool, iarf_e, line_end_e and token_pos_e; unknown words are refused without touching the target.')
